@@ -239,7 +239,8 @@ def b_goodman(ctx):
     amps = [1.0, 2.0, 5.0]
     ratios = [-3.0, -1.5, -1.0, -0.5, 0.0, 0.5, 1.0, 2.0, 5.0]            # mean / amplitude (R = 0 at 1.0, R = -inf at -1.0)
     Ms = [(0.0, 0.0), (0.1, 0.1 / 3), (0.3, 0.1), (0.3, 0.0), (0.5, 0.5), (0.3, 0.3)] if ctx.tier == 'thorough' else [(0.0, 0.0), (0.3, 0.1), (0.5, 0.5), (0.3, 0.0)]
-    goals = [-math.inf, -2.0, -1.0, -0.5, 0.0, 0.3, 0.5, 2.0]
+    # (0.6 .. 0.97: targets in the upper half of the topmost segment, added after seed C12-e parked that segment on its right border R = 1)
+    goals = [-math.inf, -2.0, -1.0, -0.5, 0.0, 0.3, 0.5, 0.6, 0.75, 0.9, 0.97, 2.0, 5.0]
     ctx.bound = f"cycles: amplitude in {amps} x mean/amplitude in {ratios}; (M, M2) in {Ms}; R_goal in {goals}; two five-segment sets; pairs of goals for path independence"
     ctx.rule = "non-trivial: cycle not already on the target ray and M > 0; distinct by (cycle, diagram, goal)"
     ctx.exhaustive = True
